@@ -518,7 +518,7 @@ CUSTOMS = [
     {"indent": 7, "graph": "digraph", "name": "t", "options": ["a=b;"], "nattr": True, "eattr": True},
 ]
 
-HOSTILE_NAMES = ['a"b', "back\\slash", 'q"\\"', "sp ace", "é中", "\\", '"', "a\\\\b", "x;y", "tab\tz", "n{}", "->", "[lbl]", "a", "a", "b", "\U0001f600", "new\nline", "'", "%s", ("it's", 'q"', 1), 3.5, None, ("\\",), "cpu%%", "100%", "%d%%", 'many' + '"\\' * 20, '"' * 40]
+HOSTILE_NAMES = ['a"b', "back\\slash", 'q"\\"', "sp ace", "é中", "\\", '"', "a\\\\b", "x;y", "tab\tz", "n{}", "->", "[lbl]", "a", "a", "b", "\U0001f600", "new\nline", "'", "%s", ("it's", 'q"', 1), 3.5, None, ("\\",), "cpu%%", "100%", "%d%%", 'many' + '"\\' * 20, '"' * 40, "e\u0301", "\u00e9", "\u212b", "A\u030a", "\u00c5", "\u2126"]
 
 
 def hostile_names(rng, n, collide):
